@@ -4,8 +4,8 @@
    MultiSetup_PreGER does, and what SingleSetup does except for the stored duration), [run true] the model of the
    present SingleSetup duration formula.  Every theorem quantifies over ALL histories [ops]. *)
 From Coq Require Import List ZArith QArith Qcanon String Bool.
-From PyOMA.Model Require Import M_prep.
-From PyOMA.Proofs Require Import P_prep.
+From PyOMA.Model Require Import M_prep M_prep_mem.
+From PyOMA.Proofs Require Import P_prep P_prep_mem.
 Import ListNotations.
 Local Open Scope string_scope.
 Local Open Scope list_scope.
@@ -104,6 +104,155 @@ Proof. exact single_T_refuted. Qed.
 Theorem C14_printer_term_eqb_sound : forall a b, term_eqb a b = true -> a = b.
 Proof. exact term_eqb_eq. Qed.
 
+(* ------------------------------------------------------------------------------------------------------------------
+   MEMORY LAYER (Model/M_prep_mem.v): buffers with identities.  [mm ms] says which buffer ids the user, the stored initial
+   copy (_initial_data / _initial_datasets), the current data (data / datasets), the handed-over data and every algorithm
+   hold, [hp] what every buffer contains (a M_prep term / view, READ from the heap by every call) and whether its dtype is
+   floating, [m_log] what every call read, allocated and wrote.  [st ms] is the M_prep state; the calls of [mrun] succeed
+   exactly when those of [run] do.  First argument [ow] of mstep / mrun:  false = THE PRESENT CODE (BaseSetup._detrend_data
+   drops overwrite_data before calling SciPy, repo commit f6a83e1);  true = the code before that commit (the keyword reached
+   SciPy, which then detrends floating buffers in place).  All theorems quantify over ALL histories,
+   detrend_data(overwrite_data=True) included; those stated for every [ow] hold of both variants. *)
+Local Open Scope nat_scope.
+
+(* THE PRESENT CODE: "no call ever modifies the arrays the user passed in or the stored initial copy", and what an algorithm
+   was handed stays what it was, at full strength: for every history (overwrite_data=True included) every logged write set is
+   empty and every existing buffer keeps its content through every later history; hence the user's arrays hold what the
+   user passed, the stored copy of any moment holds the initial data (content and dtype), the buffers handed over at any
+   moment - what an algorithm added then holds - hold the data of that moment, and bindings are never dropped *)
+Theorem C14_mem_nothing_ever_written : forall pc sg fs0 refs ds fl ms0, minit sg fs0 refs ds fl = POk ms0 ->
+  forall ops more ms1 ms2, mrun false pc sg ms0 ops = POk ms1 -> mrun false pc sg ms0 (ops ++ more) = POk ms2 ->
+    Forall (fun e => e_writes e = []) (m_log (mm ms2))
+    /\ nx (mm ms1) <= nx (mm ms2) /\ (forall i, i < nx (mm ms1) -> hp (mm ms2) i = hp (mm ms1) i)
+    /\ m_user (mm ms2) = m_user (mm ms0) /\ map (fun i => bc (hp (mm ms2) i)) (m_user (mm ms2)) = map Whole ds
+    /\ map (hp (mm ms2)) (m_init (mm ms1)) = map (fun t => {| bc := Whole t; bfl := tflag fl t |}) ds
+    /\ map (fun i => bc (hp (mm ms2) i)) (m_data (mm ms1)) = data (st ms1)
+    /\ (forall nm ids, In (nm, ids) (m_bound (mm ms1)) -> In (nm, ids) (m_bound (mm ms2))).
+Proof. exact mem_nothing_ever_written. Qed.
+
+(* the memory model runs exactly the histories the term model runs, with the same term-level state (either variant) *)
+Theorem C14_mem_same_histories : forall ow pc sg ms0 ops,
+  (forall ms, mrun ow pc sg ms0 ops = POk ms -> run pc sg (st ms0) ops = POk (st ms))
+  /\ (forall s, run pc sg (st ms0) ops = POk s -> exists ms, mrun ow pc sg ms0 ops = POk ms /\ st ms = s).
+Proof. intros ow pc sg ms0 ops. split; [exact (mrun_st ow pc sg ms0 ops)|exact (mrun_total ow pc sg ms0 ops)]. Qed.
+
+(* the constructor works ON the user's arrays (current data = the user's buffers) and stores a copy in other buffers; after
+   EVERY history the contents of the current-data buffers, of the handed-over buffers and of the stored copy are those of
+   the term model (so C14_prep_composes / _rollback / _init_immutable speak about what the buffers hold); SingleSetup hands
+   over the current data buffer itself, PreGER separate ref/mov buffers; every id in use is allocated (either variant) *)
+Theorem C14_mem_coherent : forall ow pc sg fs0 refs ds fl ms0, minit sg fs0 refs ds fl = POk ms0 ->
+  init_state sg fs0 refs ds = POk (st ms0)
+  /\ m_cur (mm ms0) = m_user (mm ms0) /\ disjoint (m_user (mm ms0)) (m_init (mm ms0))
+  /\ map (fun i => bc (hp (mm ms0) i)) (m_user (mm ms0)) = map Whole ds
+  /\ forall ops ms, mrun ow pc sg ms0 ops = POk ms ->
+       run pc sg (st ms0) ops = POk (st ms)
+       /\ map (fun i => bc (hp (mm ms) i)) (m_cur (mm ms)) = map Whole (cur (st ms))
+       /\ map (fun i => bc (hp (mm ms) i)) (m_data (mm ms)) = data (st ms)
+       /\ map (hp (mm ms)) (m_init (mm ms)) = map (fun t => {| bc := Whole t; bfl := tflag fl t |}) ds
+       /\ (if sg then m_data (mm ms) = m_cur (mm ms)
+           else disjoint (m_data (mm ms)) (m_cur (mm ms)) /\ disjoint (m_data (mm ms)) (m_init (mm ms)))
+       /\ (forall i, In i (m_user (mm ms) ++ m_init (mm ms) ++ m_cur (mm ms) ++ m_data (mm ms)) -> i < nx (mm ms)).
+Proof. exact mem_coherent. Qed.
+
+(* the stored initial copy, EITHER variant: after every history it holds the user's initial data (content and dtype), the
+   next call leaves those buffers as they are, and whatever a call writes is a buffer of the current data, not of the stored
+   copy, written in the variant ow = true only, by a detrend call with overwrite_data truthy, a linear type, a floating dtype *)
+Theorem C14_mem_init_copy_intact : forall ow pc sg fs0 refs ds fl ms0, minit sg fs0 refs ds fl = POk ms0 ->
+  forall ops ms, mrun ow pc sg ms0 ops = POk ms ->
+    map (hp (mm ms)) (m_init (mm ms)) = map (fun t => {| bc := Whole t; bfl := tflag fl t |}) ds
+    /\ forall o ms', mstep ow pc sg ms o = POk ms' ->
+         map (hp (mm ms')) (m_init (mm ms)) = map (fun t => {| bc := Whole t; bfl := tflag fl t |}) ds
+         /\ forall j, In j (e_writes (last_effect (mm ms'))) ->
+              In j (m_cur (mm ms)) /\ ~ In j (m_init (mm ms)) /\ ow = true
+              /\ exists kw, o = Detrend kw /\ kw_overwrite kw = true /\ kw_linear kw = true /\ bfl (hp (mm ms) j) = true.
+Proof. exact mem_init_copy_intact. Qed.
+
+(* either variant: as long as overwrite_data does not reach SciPy (ow = false) or no later detrend call asks for it, NO buffer
+   that exists is written and every later write set is empty *)
+Theorem C14_mem_no_overwrite_frozen : forall ow pc sg fs0 refs ds fl ms0, minit sg fs0 refs ds fl = POk ms0 ->
+  forall ops more ms1 ms2, ow = false \/ Forall op_no_overwrite more ->
+    mrun ow pc sg ms0 ops = POk ms1 -> mrun ow pc sg ms0 (ops ++ more) = POk ms2 ->
+    nx (mm ms1) <= nx (mm ms2)
+    /\ (forall i, i < nx (mm ms1) -> hp (mm ms2) i = hp (mm ms1) i)
+    /\ exists l, m_log (mm ms2) = m_log (mm ms1) ++ l /\ Forall (fun e => e_writes e = []) l.
+Proof. exact mem_no_overwrite_frozen. Qed.
+
+(* either variant, in-place calls allowed: a buffer that is neither current data nor stored copy is never written again, and
+   never becomes current data or stored copy again *)
+Theorem C14_mem_frozen_outside : forall ow pc sg fs0 refs ds fl ms0, minit sg fs0 refs ds fl = POk ms0 ->
+  forall ops more ms1 ms2, mrun ow pc sg ms0 ops = POk ms1 -> mrun ow pc sg ms0 (ops ++ more) = POk ms2 ->
+    forall i, i < nx (mm ms1) -> ~ In i (m_cur (mm ms1)) -> ~ In i (m_init (mm ms1)) ->
+      hp (mm ms2) i = hp (mm ms1) i /\ ~ In i (m_cur (mm ms2)) /\ ~ In i (m_init (mm ms2)).
+Proof. exact mem_frozen_outside. Qed.
+
+(* add_algorithms(alg): alg holds the very buffers the setup hands over at that moment (an alias, not a copy); nothing is
+   read, allocated or written; what the other instances hold is untouched *)
+Theorem C14_mem_bind : forall ow pc sg ms0 ops ms nm, mrun ow pc sg ms0 ops = POk ms ->
+  exists ms', mrun ow pc sg ms0 (ops ++ [AddAlg nm]) = POk ms'
+    /\ malg_lookup nm (m_bound (mm ms')) = Some (m_data (mm ms))
+    /\ (forall nm', nm' <> nm -> malg_lookup nm' (m_bound (mm ms')) = malg_lookup nm' (m_bound (mm ms)))
+    /\ hp (mm ms') = hp (mm ms) /\ nx (mm ms') = nx (mm ms) /\ m_user (mm ms') = m_user (mm ms)
+    /\ m_init (mm ms') = m_init (mm ms) /\ m_cur (mm ms') = m_cur (mm ms) /\ m_data (mm ms') = m_data (mm ms)
+    /\ last_effect (mm ms') = {| e_reads := []; e_allocs := []; e_writes := [] |}.
+Proof. exact mem_bind. Qed.
+
+Theorem C14_mem_bound_stable : forall ow pc sg fs0 refs ds fl ms0, minit sg fs0 refs ds fl = POk ms0 ->
+  forall ops more ms1 ms2, mrun ow pc sg ms0 ops = POk ms1 -> mrun ow pc sg ms0 (ops ++ more) = POk ms2 ->
+    exists l, m_bound (mm ms2) = m_bound (mm ms1) ++ l.
+Proof. exact mem_bound_stable. Qed.
+
+(* MultiSetup_PreGER, either variant: the buffers handed over at any moment hold the ref/mov split of the data of that moment
+   and are never written by any later call, in-place detrending included *)
+Theorem C14_mem_preger_alg_frozen : forall ow pc fs0 refs ds fl ms0, minit false fs0 refs ds fl = POk ms0 ->
+  forall ops more ms1 ms2, mrun ow pc false ms0 ops = POk ms1 -> mrun ow pc false ms0 (ops ++ more) = POk ms2 ->
+    map (fun i => bc (hp (mm ms1) i)) (m_data (mm ms1)) = data (st ms1)
+    /\ forall i, In i (m_data (mm ms1)) ->
+         hp (mm ms2) i = hp (mm ms1) i /\ ~ In i (m_cur (mm ms2)) /\ ~ In i (m_init (mm ms2)).
+Proof. exact mem_preger_alg_frozen. Qed.
+
+(* either variant: the user's arrays are the same buffers throughout, and one that is no longer among the current data (after
+   any decimation, filtering, rollback, or copying detrend) is never written again and never current data again *)
+Theorem C14_mem_user_frozen_once_left : forall ow pc sg fs0 refs ds fl ms0, minit sg fs0 refs ds fl = POk ms0 ->
+  forall ops more ms1 ms2, mrun ow pc sg ms0 ops = POk ms1 -> mrun ow pc sg ms0 (ops ++ more) = POk ms2 ->
+    m_user (mm ms2) = m_user (mm ms0)
+    /\ forall u, In u (m_user (mm ms0)) -> ~ In u (m_cur (mm ms1)) -> hp (mm ms2) u = hp (mm ms1) u /\ ~ In u (m_cur (mm ms2)).
+Proof. exact mem_user_frozen_once_left. Qed.
+
+(* rollback (either variant) installs as current data the SAME buffers that were the stored copy (no copy back), stores a NEW
+   deepcopy of them (fresh ids) as the stored copy, writes nothing; both hold the user's initial data; they are disjoint *)
+Theorem C14_mem_rollback_alias : forall ow pc sg fs0 refs ds fl ms0, minit sg fs0 refs ds fl = POk ms0 ->
+  forall ops ms ms', mrun ow pc sg ms0 ops = POk ms -> mrun ow pc sg ms0 (ops ++ [Rollback]) = POk ms' ->
+    m_cur (mm ms') = m_init (mm ms)
+    /\ m_init (mm ms') = seq (nx (mm ms)) (List.length (m_init (mm ms)))
+    /\ (forall i, (i < nx (mm ms))%nat -> hp (mm ms') i = hp (mm ms) i)
+    /\ map (hp (mm ms')) (m_cur (mm ms')) = map (fun t => {| bc := Whole t; bfl := tflag fl t |}) ds
+    /\ map (hp (mm ms')) (m_init (mm ms')) = map (fun t => {| bc := Whole t; bfl := tflag fl t |}) ds
+    /\ disjoint (m_init (mm ms')) (m_cur (mm ms'))
+    /\ e_writes (last_effect (mm ms')) = [].
+Proof. exact mem_rollback_alias. Qed.
+
+(* REPAIRED DEFECT (KNOWN_FINDINGS.txt: fixed f6a83e1), kept as a theorem about the variant ow = true: when overwrite_data
+   reaches SciPy the immutability clause is false.  Witness 1: SingleSetup on a 600x3 float array, add_algorithms,
+   detrend_data(overwrite_data=True): buffer 0 is the user's array, the current data AND what the algorithm holds; the call
+   writes it; it then holds the detrended data; the stored copy is intact.  Witness 2: PreGER with a float and an integer
+   dataset: the float user array is written, the integer one is not; the algorithm's ref/mov buffers keep the undetrended split.
+   (C14_mem_nothing_ever_written is the statement that holds of the present code on the same histories.) *)
+Theorem C14_mem_overwrite_inplace_variant_refuted :
+  (exists ms0 ms, minit true (Q2Qc (100#1)) [] [Init 0 600 3] (fun _ => true) = POk ms0
+     /\ mrun true false true ms0 [AddAlg 1; Detrend ow_kw] = POk ms
+     /\ m_user (mm ms) = [0] /\ malg_lookup 1 (m_bound (mm ms)) = Some [0] /\ m_cur (mm ms) = [0]
+     /\ e_writes (last_effect (mm ms)) = [0]
+     /\ bc (hp (mm ms0) 0) = Whole (Init 0 600 3) /\ bc (hp (mm ms) 0) = Whole (Det ow_kw (Init 0 600 3))
+     /\ map (hp (mm ms)) (m_init (mm ms)) = [{| bc := Whole (Init 0 600 3); bfl := true |}])
+  /\ (exists ms0 ms, minit false (Q2Qc (100#1)) [[0]; [1]] [Init 0 600 3; Init 1 640 2] (fun k => Nat.eqb k 0) = POk ms0
+     /\ mrun true false false ms0 [AddAlg 1; Detrend ow_kw] = POk ms
+     /\ m_user (mm ms) = [0; 1] /\ e_writes (last_effect (mm ms)) = [0]
+     /\ map (fun i => bc (hp (mm ms) i)) (m_user (mm ms)) = [Whole (Det ow_kw (Init 0 600 3)); Whole (Init 1 640 2)]
+     /\ malg_lookup 1 (m_bound (mm ms)) = Some [4; 5]
+     /\ map (fun i => bc (hp (mm ms) i)) [4; 5] = [Split (Init 0 600 3) [0] [1; 2]; Split (Init 1 640 2) [1] [0]])%nat.
+Proof. exact mem_overwrite_inplace_variant_refuted. Qed.
+Local Close Scope nat_scope.
+
 Print Assumptions C14_prep_composes.
 Print Assumptions C14_prep_rebind.
 Print Assumptions C14_prep_bound_stable.
@@ -116,6 +265,18 @@ Print Assumptions C14_prep_init_immutable.
 Print Assumptions C14_present_same_but_T.
 Print Assumptions C14_single_T_refuted.
 Print Assumptions C14_printer_term_eqb_sound.
+Print Assumptions C14_mem_same_histories.
+Print Assumptions C14_mem_coherent.
+Print Assumptions C14_mem_init_copy_intact.
+Print Assumptions C14_mem_no_overwrite_frozen.
+Print Assumptions C14_mem_frozen_outside.
+Print Assumptions C14_mem_bind.
+Print Assumptions C14_mem_bound_stable.
+Print Assumptions C14_mem_preger_alg_frozen.
+Print Assumptions C14_mem_user_frozen_once_left.
+Print Assumptions C14_mem_rollback_alias.
+Print Assumptions C14_mem_overwrite_inplace_variant_refuted.
+Print Assumptions C14_mem_nothing_ever_written.
 
 (* non-vacuity: a PreGER object with two datasets (800x3 with references [2;0], 840x4 with references [1;3]) at 1000 Hz can be
    built, and the documentation's own history  filter -> decimate(ftype="fir") -> add_algorithms(alg) -> detrend -> rollback -> decimate
@@ -152,3 +313,29 @@ Example C14_example_failed_calls :
     /\ Ndats (run_keep false true s0 ops) = [22]%nat
     /\ map (fun x : Qc => this x) [fs (run_keep false true s0 ops); dt (run_keep false true s0 ops)] = [100#3; 3#100].
 Proof. cbv zeta. eexists. split; [vm_compute; reflexivity|]. vm_compute. repeat split; reflexivity. Qed.
+
+(* non-vacuity of the memory theorems, present code (ow = false): a PreGER object on a float64 (buffer 0) and an int16 (buffer 1)
+   record; the history add_algorithms(7) -> detrend_data(overwrite_data=True) -> rollback -> detrend_data(overwrite_data=True) ->
+   decimate_data(2) runs and writes NOTHING: both detrend calls put their results in fresh buffers (6, 7 and 14, 15); the user's
+   arrays and the stored copy (fresh buffers 10, 11 after the rollback; 2, 3 are then the current data) hold the initial data;
+   algorithm 7 still holds buffers 4, 5 with the split of the initial data.  Under the variant ow = true the same history writes
+   the user's float array (buffer 0) and then buffer 2. *)
+Example C14_example_mem :
+  let ops := [AddAlg 7; Detrend ow_kw; Rollback; Detrend ow_kw; Decimate 2 []] in
+  exists ms0 ms msv, minit false (Q2Qc (100#1)) [[0; 1]; [1]]%nat (inits [(600, 3); (640, 2)]%nat) (fun k => Nat.eqb k 0) = POk ms0
+    /\ mrun false false false ms0 ops = POk ms
+    /\ m_user (mm ms0) = [0; 1]%nat /\ m_cur (mm ms0) = [0; 1]%nat /\ m_init (mm ms0) = [2; 3]%nat /\ m_data (mm ms0) = [4; 5]%nat
+    /\ map e_writes (m_log (mm ms)) = [[]; []; []; []; []; []]%nat
+    /\ m_init (mm ms) = [10; 11]%nat /\ malg_lookup 7 (m_bound (mm ms)) = Some [4; 5]%nat
+    /\ map (fun i => bc (hp (mm ms) i)) [0; 1; 2; 3; 10; 11; 4]%nat
+       = [Whole (Init 0 600 3); Whole (Init 1 640 2); Whole (Init 0 600 3); Whole (Init 1 640 2); Whole (Init 0 600 3); Whole (Init 1 640 2);
+          Split (Init 0 600 3) [0; 1] [2]]%nat
+    /\ map (fun i => bc (hp (mm ms) i)) (m_cur (mm ms))
+       = [Whole (Dec 2 [] (Det ow_kw (Init 0 600 3))); Whole (Dec 2 [] (Det ow_kw (Init 1 640 2)))]
+    /\ mrun true false false ms0 ops = POk msv
+    /\ map e_writes (m_log (mm msv)) = [[]; []; [0]; []; [2]; []]%nat
+    /\ map (fun i => bc (hp (mm msv) i)) [0; 1]%nat = [Whole (Det ow_kw (Init 0 600 3)); Whole (Init 1 640 2)].
+Proof.
+  cbv zeta. eexists. eexists. eexists. split; [vm_compute; reflexivity|]. split; [vm_compute; reflexivity|].
+  do 9 (split; [vm_compute; reflexivity|]). split; [vm_compute; reflexivity|]. vm_compute. split; reflexivity.
+Qed.
